@@ -104,14 +104,15 @@ Definition init_states (g : game) : outcome (list node) :=
   if length sl =? n then Ok sl else ValueErr msg_missing.
 
 (** ** Reachability *)
-Definition reach_step (sl : list node) (n : node) : T :=
-  match nk n with
-  | PR => fold_left (fun v t => add K v (mul K (reach (getn sl (dst t))) (pr t))) (nxt n) (zero K)
-  | P1 => fold_left (fun m t => let r := reach (getn sl (dst t)) in if ltb K m r then r else m)
-                    (nxt n) (zero K)
-  | P2 => fold_left (fun m t => let r := reach (getn sl (dst t)) in if ltb K r m then r else m)
-                    (nxt n) (one K)
+(* one Bellman step as a function of the value vector [x], the kind and the transition list *)
+Definition rstep (x : nat -> T) (k : kind) (l : list trans) : T :=
+  match k with
+  | PR => fold_left (fun v t => add K v (mul K (x (dst t)) (pr t))) l (zero K)
+  | P1 => fold_left (fun m t => let r := x (dst t) in if ltb K m r then r else m) l (zero K)
+  | P2 => fold_left (fun m t => let r := x (dst t) in if ltb K r m then r else m) l (one K)
   end.
+Definition reach_vec (sl : list node) : nat -> T := fun i => reach (getn sl i).
+Definition reach_step (sl : list node) (n : node) : T := rstep (reach_vec sl) (nk n) (nxt n).
 
 Definition sweep_reach (S : list nat) (sl : list node) : list node * T :=
   fold_left (fun st i =>
@@ -180,16 +181,18 @@ Definition prune_paths (sl : list node) : list node := map (prune_paths_node sl)
 
 Definition incl_b (a b : list nat) : bool := forallb (fun x => mem_nat x b) a.
 
+(* One round of Solver.prune_states. The Python loop decides for each state from the state's own
+   fields and from [reachable], which is computed before the loop; so the round is a map. *)
+Definition ps_clear (reachable : list nat) (idx : nat) (n : node) : bool :=
+  negb (kind_eqb (nk n) P1) && negb (mem_nat idx reachable).
+Definition ps_listed (reachable : list nat) (idx : nat) (n : node) : bool :=
+  ps_clear reachable idx n ||
+  (kind_eqb (nk n) P1 && (match nxt n with [] => true | _ => false end) && negb (mem_nat idx reachable)).
 Definition prune_states_round (sl : list node) : list node * list nat :=
   let reachable := 0 :: flat_map (fun n => map dst (nxt n)) sl in
-  fold_left (fun st idx =>
-      let n := getn (fst st) idx in
-      if negb (kind_eqb (nk n) P1) && negb (mem_nat idx reachable)
-      then (upd (fst st) idx (set_nxt n []), snd st ++ [idx])
-      else if kind_eqb (nk n) P1 && (match nxt n with [] => true | _ => false end)
-              && negb (mem_nat idx reachable)
-      then (fst st, snd st ++ [idx])
-      else st) (seq 0 (length sl)) (sl, []).
+  let isl := combine (seq 0 (length sl)) sl in
+  (map (fun ix => if ps_clear reachable (fst ix) (snd ix) then set_nxt (snd ix) [] else snd ix) isl,
+   map fst (filter (fun ix => ps_listed reachable (fst ix) (snd ix)) isl)).
 
 Fixpoint prune_states (fuel : nat) (old : list nat) (sl : list node) : outcome (list node) :=
   match fuel with
